@@ -15,8 +15,8 @@ import vlib
 
 META = {
     "category": "proof",
-    "text": "Coq theorems (Lsm/Props_C01.v, closed under the global context): for every history of puts/deletes/batches, flushes, admissible compactions (trivial moves and merges, any cut of the outputs) and reopens (any well-formed ordered re-levelling), a point read returns the last write; load returns the newest version <= t among all entries of any well-formed Ordered store; an admissible compaction leaves every key's version sequence unchanged. The model (load path, partition points, L0 order, apply_compaction, sequence numbers, flush) is tied to lsmtk by lock-step replay of single-stepped real histories on the extracted model; the selector (next_compaction) and recovery (recover.rs) are NOT modelled: each of their results is checked at run time with the extracted admissibility / well-formedness / Ordered checkers, so the theorem applies to exactly the steps the real code took.",
-    "note": "Trusted: Coq kernel; extraction (ExtrOcamlBasic) + ocaml/lsm driver; harness `lsm` + lsmtk hooks (cfg blue_verif: verif_dump, verif_compaction_step, verif_request_flush/wait); checks/lsmlib.py. Modelled, not verified: Sst::load as 'newest version <= t in the file' (C10's subject), the memtable as a newest-first list (C17), single-stepped execution (concurrency is C06/C07), garbage collection and the selector/recovery algorithms themselves (their outputs are validated per step). Known findings K1/K2/K3 (unsound expand_compaction, recovery level assignment, trivial move splitting a key's versions) and F7 are recorded in known_findings.txt.",
+    "text": "Coq theorems (Lsm/Props_C01.v, closed under the global context): for every history of puts/deletes/batches, external ingests, flushes, admissible compactions (trivial moves and merges, any cut of the outputs), last-level garbage collections (any admissible retention) and reopens (any well-formed ordered re-levelling), from any starting sequence number, a point read returns the last write; load returns the newest version <= t among all entries of any well-formed Ordered store; an admissible compaction leaves every key's version sequence unchanged and the levels well-formed. The model (load path, partition points, L0 order, apply_compaction, sequence numbers, flush, ingest) is tied to lsmtk by lock-step replay of single-stepped real histories on the extracted model (KeyValueStore sessions and bare LsmTree sessions fed by externally built ssts; compactions applied at once or selected and performed later with several ongoing, as K compaction threads do). The selector (next_compaction) is modelled and proved admissible in C20 and composed in Stall/EndToEnd.v; here, as for recovery (recover.rs), each result is checked at run time with the extracted admissibility / well-formedness / Ordered checkers, so the theorem applies to exactly the steps the real code took.",
+    "note": "Trusted: Coq kernel; extraction (ExtrOcamlBasic) + ocaml/lsm driver; harnesses `lsm`, `lsmtree` + lsmtk hooks (cfg blue_verif: verif_dump, verif_compaction_step / _select / _perform, verif_request_flush/wait); checks/lsmlib.py. Modelled, not verified: Sst::load as 'newest version <= t in the file' (C10's subject), the memtable as a newest-first list (C17), single-stepped execution (threads: C06/C07/C20; concurrent commit: C04), the recovery algorithm (its output is validated per reopen; C01_recovery_from_metadata_refuted shows no function of the metadata it uses can be correct). Known finding K2 (recovery level assignment) is recorded in known_findings.txt; K1 (expand_compaction), K3 (trivial move), F1, F6, F7 were repaired in /repo and are violations again if they return.",
 }
 
 PROPS = "theories/Lsm/Props_C01.v"
